@@ -378,20 +378,20 @@ def items_in(src, toks, lo, hi):
 
 
 def find_item(src, path, toks=None):
-    """path: list of components like 'impl Scaled', 'fn xn_over_d'.  Returns Item."""
+    """path: list of components like 'impl Scaled', 'fn xn_over_d'.  Returns Item.
+    When several items match a component (e.g. two `impl Glue` blocks) the first one in which the REST of the path
+    resolves is taken (an explicit ordinal suffix `#n` pins one)."""
     if toks is None:
         toks = tokenize(src)
-    lo, hi = 0, len(toks)
-    item = None
-    for comp in path:
-        comp = comp.strip()
+
+    def resolve(k, lo, hi):
+        comp = path[k].strip()
         if comp.startswith("impl") and not comp[4:5].isalnum():
             kw, rest = "impl", comp[4:].strip()
         else:
             kw, _, rest = comp.partition(" ")
             rest = rest.strip()
-        # optional ordinal suffix  "#2" to pick the n-th match
-        ordinal = 1
+        ordinal = None
         m = re.search(r"\s#(\d+)$", rest)
         if m:
             ordinal = int(m.group(1))
@@ -405,12 +405,23 @@ def find_item(src, path, toks=None):
                     cands.append(it)
             elif it.name == rest:
                 cands.append(it)
-        if len(cands) < ordinal:
+        if ordinal is not None:
+            cands = cands[ordinal - 1:ordinal]
+        if not cands:
             raise ItemNotFound("item %r not found (component %r)" % (" :: ".join(path), comp))
-        item = cands[ordinal - 1]
-        br = item.body_range()
-        if br is not None:
-            lo, hi = br[0] + 1, br[1]
-        else:
-            lo, hi = item.end_idx, item.end_idx
-    return item
+        if k == len(path) - 1:
+            return cands[0]
+        last = None
+        for item in cands:
+            br = item.body_range()
+            if br is not None:
+                lo2, hi2 = br[0] + 1, br[1]
+            else:
+                lo2, hi2 = item.end_idx, item.end_idx
+            try:
+                return resolve(k + 1, lo2, hi2)
+            except ItemNotFound as e:
+                last = e
+        raise last
+
+    return resolve(0, 0, len(toks))
